@@ -229,6 +229,7 @@ func (f *readFile) transmittable(rawLine *bytes.Buffer, length, capacity int,
 	// Can we actually send more messages, channel capacity reached?
 	if f.canSkipLines && length >= capacity {
 		f.updateLineNotTransmitted()
+		f.updateLineDropped()
 		return newLine, false
 	}
 	f.updateLineTransmitted()
